@@ -248,7 +248,46 @@ def verify_function(reg, sources, key, canary=True):
 
 
 def solve(pc, goal, timeout_ms=Z3_TIMEOUT_MS):
-    """Check validity of pc => goal. Returns (status, seconds, model_or_reason, backend)."""
+    """Check validity of pc => goal. Returns (status, seconds, model_or_reason, backend).
+    A goal that is a conjunction is proved conjunct by conjunct; when the solver gives up, the path condition is
+    split on its top-level disjunctions that contain quantifiers (the alternatives of a merged loop exit) and
+    every case is proved separately -- both are plain proof rules (and-introduction, or-elimination)."""
+    from .state import has_quantifier
+    t0 = time.time()
+    quick = min(timeout_ms, int(os.environ.get("PYVC_Z3_QUICK_MS", "5000")))
+    st, dt, m, be = _solve1(pc, goal, quick, retries=False)
+    if st in ("discharged", "failed"):
+        return st, dt, m, be
+    if z3.is_and(goal) and goal.num_args() > 1:
+        worst = None
+        for g in goal.children():
+            st, dt, m, be = solve(pc, g, timeout_ms)
+            if st == "failed":
+                return st, time.time() - t0, m, be
+            if st != "discharged":
+                worst = (st, m, be)
+        if worst is None:
+            return "discharged", time.time() - t0, None, be + " (conjuncts)"
+        return worst[0], time.time() - t0, worst[1], worst[2]
+    ors = [i for i, c in enumerate(pc) if z3.is_or(c) and c.num_args() > 1 and has_quantifier(c)]
+    if ors and len(pc) < 4000:
+        i = ors[0]
+        rest = pc[:i] + pc[i + 1:]
+        worst = None
+        be = "z3"
+        for d in pc[i].children():
+            st, dt, m, be = solve(rest + [d], goal, timeout_ms)
+            if st == "failed":
+                return st, time.time() - t0, m, be
+            if st != "discharged":
+                worst = (st, m, be)
+        if worst is None:
+            return "discharged", time.time() - t0, None, be.split(" (")[0] + " (case split)"
+        return worst[0], time.time() - t0, worst[1], worst[2]
+    return _solve1(pc, goal, timeout_ms, retries=True)
+
+
+def _solve1(pc, goal, timeout_ms, retries=True):
     s = z3.Solver()
     s.set("timeout", timeout_ms)
     for c in pc:
@@ -261,6 +300,8 @@ def solve(pc, goal, timeout_ms=Z3_TIMEOUT_MS):
         return "discharged", dt, None, "z3-" + z3.get_version_string()
     if r == z3.sat:
         return "failed", dt, s.model(), "z3-" + z3.get_version_string()
+    if not retries:
+        return "undecided", dt, "z3: " + s.reason_unknown(), "z3-" + z3.get_version_string()
     # unknown: retry with other seeds, then cvc5
     for seed in (1, 2):
         s2 = z3.Solver()
